@@ -171,7 +171,7 @@ class Ctx:
         kept_same = sum(1 for v in self.violations if v["kind"] == kind and v["key"] == key)
         if kept_same < 2 and len(self.violations) < self.MAX_VIOL_KEPT:
             self.violations.append(
-                {"kind": kind, "key": key, "detail": str(detail)[:2000], "case": jenc(case), "shard": self.shard}
+                {"kind": kind, "key": key, "detail": str(detail)[:2000], "case": jenc(case), "shard": jenc(self.shard)}
             )
 
     def result(self):
